@@ -402,7 +402,7 @@ def execute(case):
         if ra[0] is None or rb[0] is None:
             # a statement that emits nothing behind a last byte at $FFFF is listed without an address (its address would
             # be $10000); anything that emits bytes has one
-            if ra[1] or rb[1] or proggen.size_bounds(s)[1] > 0:
+            if proggen.size_bounds(s)[1] > 0:
                 return viol("shift by {}: row {} has no address.".format(d, ra[2].strip()[:40]) + ctx, fid="C18:shift:rows", labels=labels)
             continue
         if rb[0] - ra[0] != d:
